@@ -123,6 +123,13 @@ C["C08"]["harnesses"] += [
 ]
 C["C08"]["assumptions"] += ["torrent fixture: real newTorrent/startPeer; goroutines not run (ghost workers), peer writer / resume db / DHT node replaced by recorders"]
 
+C["C09"] = dict(assumptions=["torrent fixture: real newTorrent/startPeer/handlers and the real piece picker; requests sent to peers are recorded", "web-seed ranges are not exercised (no web-seed sources in the fixture)"], harnesses=[
+    H("ZZPickerSeq3", "torrent", "every sequence of 3 peer events (have / unchoke / choke / allowed-fast / snub / disconnect / piece completion with good or bad hash) on a downloading 3-piece torrent with 2 real peers (one with the fast extension), end-game limit 1..2: every request sent is for a piece we lack and are not writing, to a peer that has it and is not choking (or allowed-fast), one download per peer, duplicates within the limit, available count exact", T(40, 1800, 8, 6, flags=["-nospawn"]), None, replay="model"),
+    H("ZZPickerSequential3", "torrent", "same in sequential mode, plus: a non-allowed-fast pick for an unchoked peer is the lowest eligible piece, file-edge pieces first", T(40, 1800, 8, 6, flags=["-nospawn"]), None, replay="model"),
+    H("ZZPickerSeq4", "torrent", "4 events, rarest-first", None, T(40, 7000, 32, 8, flags=["-nospawn"]), replay="model"),
+    H("ZZPickerSequential4", "torrent", "4 events, sequential", None, T(40, 7000, 32, 8, flags=["-nospawn"]), replay="model"),
+])
+
 for pid, spec in C.items():
     spec = dict(property=pid, **spec)
     json.dump(spec, open(os.path.join(D, pid + ".json"), "w"), indent=1)
